@@ -5,6 +5,7 @@ arbitrary linearly ordered field (`FloorRing` where the code calls `floor`), the
 "inside" is the closed interval `[a, b]`.
 -/
 import MahfModel.Proofs.C14
+import Mathlib.Data.Rat.Floor
 namespace MahfModel.Props.C14
 open MahfModel.Boundary
 
@@ -139,6 +140,36 @@ theorem onetailed_idem (a b x y : F) (script rest script' : List F)
 
 end Repair
 
+/-! ### Whole solutions: every coordinate of the repaired solution lies within its own domain bounds -/
+
+section Solutions
+variable {F : Type} [Field F] [LinearOrder F] [IsStrictOrderedRing F]
+
+theorem saturation_solution_in_bounds (sol : List F) (dom : List (F × F)) (hl : sol.length = dom.length)
+    (hd : ∀ d ∈ dom, d.1 < d.2) :
+    ∃ ys, zipDomainM saturation sol dom = some ys ∧ ys.length = sol.length ∧
+      ∀ k (hk : k < ys.length) (hk' : k < dom.length), dom[k].1 ≤ ys[k] ∧ ys[k] ≤ dom[k].2 :=
+  zipDomainM_all saturation (fun d y => d.1 ≤ y ∧ y ≤ d.2) sol dom hl
+    (fun k _ hk' => saturation_in_bounds sol[k] dom[k].1 dom[k].2 (hd _ (List.getElem_mem hk')))
+
+theorem toroidal_solution_in_bounds [FloorRing F] (sol : List F) (dom : List (F × F))
+    (hl : sol.length = dom.length) (hd : ∀ d ∈ dom, d.1 < d.2) :
+    ∀ k (hk : k < (zipDomain (toroidal floorF) sol dom).length) (hk' : k < dom.length),
+      dom[k].1 ≤ (zipDomain (toroidal floorF) sol dom)[k] ∧ (zipDomain (toroidal floorF) sol dom)[k] ≤ dom[k].2 :=
+  zipDomain_all (toroidal floorF) (fun d y => d.1 ≤ y ∧ y ≤ d.2) sol dom hl
+    (fun x d hmem => toroidal_in_bounds x d.1 d.2 (hd d hmem))
+
+/-- Mirror on a whole solution, with fuel covering the farthest coordinate of THIS solution. -/
+theorem mirror_solution_in_bounds [FloorRing F] (sol : List F) (dom : List (F × F)) (fuel : Nat)
+    (hl : sol.length = dom.length) (hd : ∀ d ∈ dom, d.1 < d.2)
+    (hf : ∀ k (hk : k < sol.length) (hk' : k < dom.length),
+      ⌈|sol[k] - dom[k].1| / (dom[k].2 - dom[k].1)⌉₊ ≤ fuel) :
+    ∃ ys, zipDomainM (mirror fuel) sol dom = some ys ∧ ys.length = sol.length ∧
+      ∀ k (hk : k < ys.length) (hk' : k < dom.length), dom[k].1 ≤ ys[k] ∧ ys[k] ≤ dom[k].2 :=
+  zipDomainM_all (mirror fuel) (fun d y => d.1 ≤ y ∧ y ≤ d.2) sol dom hl
+    (fun k hk hk' => mirror_returns dom[k].1 dom[k].2 sol[k] (hd _ (List.getElem_mem hk')) fuel (hf k hk hk'))
+end Solutions
+
 /-! ### Every operator keeps the dimension of the solution -/
 
 theorem repair_keeps_dimension {F : Type} (f : F → F × F → F) (g : F → F × F → Option F)
@@ -222,5 +253,11 @@ example : mirrorLoop (-10 : Int) 10 5 (-65) = some 5 := by decide
 example : oneTailedLoop (0 : Int) 10 [12, 3] (-4) = some (7, []) := by decide
 example : randomPermutation 3 2 (fun i => if i = 0 then [2, 0, 1] else [1, 0, 2]) = some [[2, 0, 1], [1, 0, 2]] := by decide
 example : ([2, 0, 1] : List Nat).Perm (List.range 3) := by decide
+example : ∀ d ∈ [((-1 : Rat), (1 : Rat)), (0, 10)], d.1 < d.2 := by
+  intro d hd; simp at hd; rcases hd with rfl | rfl <;> norm_num
+example : (0 : Rat) ≤ 7 ∧ (7 : Rat) ≤ 10 - 0 := by norm_num
+/-- the fuel hypothesis of `mirror_returns` / `mirror_solution_in_bounds` is met by a concrete coordinate -/
+example : ⌈|(7 : Rat) - (-1)| / (1 - (-1))⌉₊ ≤ 4 := by
+  rw [Nat.ceil_le]; norm_num
 
 end MahfModel.Props.C14
